@@ -1,13 +1,22 @@
-(* C13 (supplement) — several deployments of one (application, entrypoint)
-   running concurrently against one store.  Executable model only (no theorem:
-   C13_bounds is proved for one deployment with the other deployments' markers
-   static); used by the "concurrent" correspondence stream, which runs real
-   concurrent CreateWorkload calls.  The store calls are those of DeployStatus.v,
-   applied in the order in which the (serialised) calls reached the store. *)
+(* C13 — ANY NUMBER of deployments of one (application, entrypoint) running
+   concurrently against one store.  Executable model, no proofs.
+
+   The unit is the slot = (node, ident) = the key of one processing marker.  A
+   plan maps slots to planned counts (the union of the plans of all
+   deployments).  The acceptor [mstep] keeps, per slot, its life cycle
+     to-do -> marker live -> marker deleted
+   and per instance that reached AddWorkload its state; it accepts a call only
+   if the slot is in the right stage, exactly as create.go orders the calls of
+   ONE deployment, and it does not relate the calls of different deployments at
+   all: every interleaving of any number of deployments is accepted.  (For one
+   deployment this acceptor accepts a superset of DeployStatus.step's
+   sequences.)  The store calls are those of DeployStatus.v. *)
 From Coq Require Import List Bool String ZArith.
 From Verif Require Import Calcium.DeployStatus.
 Import ListNotations.
 Local Open Scope Z_scope.
+
+Definition slot := mkey.                 (* (node, ident) *)
 
 Inductive mcall :=
 | MCreateProc (ident node : string) (count : Z) (inj : bool)
@@ -15,45 +24,161 @@ Inductive mcall :=
 | MRemove (node id : string) (inj : bool)
 | MDelProc (ident node : string) (inj : bool).
 
-Definition mapply (b : backend) (st : dstate) (c : mcall) : dstate * bool :=
+Record minst := mkMi { mi_key : dkey; mi_ident : string; mi_state : istate }.
+Definition mi_slot (i : minst) : slot := (fst (mi_key i), mi_ident i).
+
+Record macc := mkMacc {
+  m_todo : list (slot * Z);              (* slots whose marker is not created yet *)
+  m_insts : list minst;                  (* instances that reached AddWorkload, most recent first *)
+  m_clean : list slot;                   (* slots whose marker deletion has not succeeded yet *)
+  m_live : list slot                     (* slots whose marker exists, in creation order *)
+}.
+
+Fixpoint splan_count (plan : list (slot * Z)) (s : slot) : option Z :=
+  match plan with
+  | [] => None
+  | (s', k) :: t => if pair_eqb s' s then Some k else splan_count t s
+  end.
+Definition splanned (plan : list (slot * Z)) (s : slot) : Z :=
+  match splan_count plan s with Some k => k | None => 0 end.
+Fixpoint remove_splan (s : slot) (plan : list (slot * Z)) : list (slot * Z) :=
+  match plan with
+  | [] => []
+  | (s', k) :: t => if pair_eqb s' s then t else (s', k) :: remove_splan s t
+  end.
+Fixpoint remove_slot (s : slot) (l : list slot) : list slot :=
+  match l with
+  | [] => []
+  | x :: t => if pair_eqb x s then t else x :: remove_slot s t
+  end.
+Definition mem_slot (s : slot) (l : list slot) : bool := existsb (pair_eqb s) l.
+
+Definition minsts_on (insts : list minst) (s : slot) : Z :=
+  Z.of_nat (List.length (filter (fun i => pair_eqb (mi_slot i) s) insts)).
+Fixpoint minst_state (k : dkey) (insts : list minst) : option (string * istate) :=
+  match insts with
+  | [] => None
+  | i :: t => if pair_eqb k (mi_key i) then Some (mi_ident i, mi_state i) else minst_state k t
+  end.
+Fixpoint set_minst (k : dkey) (s : istate) (insts : list minst) : list minst :=
+  match insts with
+  | [] => []
+  | i :: t => if pair_eqb k (mi_key i) then mkMi (mi_key i) (mi_ident i) s :: t else i :: set_minst k s t
+  end.
+Definition mid_used (id : string) (insts : list minst) (d0 : list dkey) : bool :=
+  existsb (fun i => String.eqb (snd (mi_key i)) id) insts || existsb (fun k => String.eqb (snd k) id) d0.
+
+Definition mstart (plan : list (slot * Z)) : macc := mkMacc plan [] (map fst plan) [].
+
+Definition mstep (b : backend) (plan : list (slot * Z)) (d0 : list dkey)
+    (s : macc * dstate) (c : mcall) : option (macc * dstate) :=
+  let '(a, st) := s in
   match c with
-  | MCreateProc ident n k inj => if inj then (st, false) else create_processing st n ident k
-  | MAdd ident n id inj => if inj then (st, false) else add_workload b st n id ident
-  | MRemove n id inj => if inj then (st, false) else (remove_workload st n id, true)
-  | MDelProc ident n inj => if inj then (st, false) else (delete_processing st n ident, true)
+  | MCreateProc ident n k inj =>
+      match splan_count (m_todo a) (n, ident) with
+      | Some k' =>
+          if Z.eqb k k' then
+            let '(st', ok) := if inj then (st, false) else create_processing st n ident k in
+            Some (mkMacc (remove_splan (n, ident) (m_todo a)) (m_insts a) (m_clean a)
+                         (if ok then m_live a ++ [(n, ident)] else m_live a), st')
+          else None
+      | None => None
+      end
+  | MAdd ident n id inj =>
+      if mem_slot (n, ident) (m_live a) && negb (mid_used id (m_insts a) d0)
+         && Z.ltb (minsts_on (m_insts a) (n, ident)) (splanned plan (n, ident))
+      then
+        let '(st', ok) := if inj then (st, false) else add_workload b st n id ident in
+        Some (mkMacc (m_todo a) (mkMi (n, id) ident (if ok then IAdded else IAddFailed) :: m_insts a)
+                     (m_clean a) (m_live a), st')
+      else None
+  | MRemove n id inj =>
+      match minst_state (n, id) (m_insts a) with
+      | Some (_, IAdded) =>
+          if inj then Some (a, st)
+          else Some (mkMacc (m_todo a) (set_minst (n, id) IRemoved (m_insts a)) (m_clean a) (m_live a),
+                     remove_workload st n id)
+      | Some (_, IAddFailed) =>
+          Some (mkMacc (m_todo a) (set_minst (n, id) IFailedGone (m_insts a)) (m_clean a) (m_live a),
+                if inj then st else remove_workload st n id)
+      | _ => None
+      end
+  | MDelProc ident n inj =>
+      (* after its deletion a slot is finished: no later CreateProcessing / AddWorkload of it is accepted *)
+      if mem_slot (n, ident) (m_clean a) then
+        if inj then Some (a, st)
+        else Some (mkMacc (remove_splan (n, ident) (m_todo a)) (m_insts a) (remove_slot (n, ident) (m_clean a)) (remove_slot (n, ident) (m_live a)),
+                   delete_processing st n ident)
+      else None
   end.
 
-Fixpoint mtrace (b : backend) (st : dstate) (cs : list mcall) : list dstate * list bool :=
+Fixpoint mrun (b : backend) (plan : list (slot * Z)) (d0 : list dkey) (s : macc * dstate) (cs : list mcall)
+    : option (macc * dstate) :=
   match cs with
-  | [] => ([st], [])
-  | c :: t => let '(st', ok) := mapply b st c in
-              let '(sts, oks) := mtrace b st' t in (st :: sts, ok :: oks)
+  | [] => Some s
+  | c :: t => match mstep b plan d0 s c with Some s' => mrun b plan d0 s' t | None => None end
+  end.
+
+Definition mreturned (a : macc) : bool := match m_clean a with [] => true | _ => false end.
+
+(* planned instances of all deployments on one node *)
+Fixpoint planned_on (plan : list (slot * Z)) (n : string) : Z :=
+  match plan with
+  | [] => 0
+  | ((n', _), k) :: t => (if String.eqb n' n then k else 0) + planned_on t n
+  end.
+
+(* ---------- cases of the correspondence check ---------- *)
+Fixpoint mtrace (b : backend) (plan : list (slot * Z)) (d0 : list dkey) (s : macc * dstate) (cs : list mcall)
+    : option (list (macc * dstate)) :=
+  match cs with
+  | [] => Some [s]
+  | c :: t => match mstep b plan d0 s c with
+              | Some s' => match mtrace b plan d0 s' t with Some r => Some (s :: r) | None => None end
+              | None => None
+              end
+  end.
+
+Definition mcall_result (b : backend) (st : dstate) (c : mcall) : bool :=
+  match c with
+  | MCreateProc ident n k inj => if inj then false else snd (create_processing st n ident k)
+  | MAdd ident n id inj => if inj then false else snd (add_workload b st n id ident)
+  | MRemove _ _ inj | MDelProc _ _ inj => negb inj
+  end.
+Fixpoint mresults_of (b : backend) (sts : list (macc * dstate)) (cs : list mcall) : list bool :=
+  match sts, cs with
+  | s :: st', c :: ct => mcall_result b (snd s) c :: mresults_of b st' ct
+  | _, _ => []
   end.
 
 Record case := mkCase {
   c_backend : backend;
   c_nodes : list string;
-  c_plans : list (string * list (string * Z));     (* ident, plan *)
+  c_plan : list (slot * Z);                        (* union of the plans of all deployments *)
   c_init : dstate;
   c_calls : list mcall;
   c_results : list bool;
   c_probes : list (list (Z * Z));
   c_intra : list (list (list (Z * Z)));
-  c_markers_left : bool                            (* a marker of one of the idents is left *)
+  c_markers_left : bool                            (* a marker of one of the plan's slots is left *)
 }.
 
-Definition agree (c : case) : bool :=
-  let '(sts, oks) := mtrace (c_backend c) (c_init c) (c_calls c) in
-  let ps := map (fun s => probe_of s (c_nodes c)) sts in
-  probes_eqb ps (c_probes c) && intra_agree ps (c_intra c) && bools_eqb oks (c_results c)
-  && Bool.eqb (existsb (fun p => has_marker_of (last sts (c_init c)) (fst p)) (c_plans c)) (c_markers_left c).
+Definition marker_of_plan_left (plan : list (slot * Z)) (st : dstate) : bool :=
+  existsb (fun p => match get_marker (fst p) (markers st) with Some _ => true | None => false end) plan.
 
-Definition planned_all (plans : list (string * list (string * Z))) (n : string) : Z :=
-  fold_right (fun p acc => planned (snd p) n + acc) 0 plans.
+Definition agree (c : case) : bool :=
+  match mtrace (c_backend c) (c_plan c) (deployed (c_init c)) (mstart (c_plan c), c_init c) (c_calls c) with
+  | None => false
+  | Some sts =>
+      let ps := map (fun s => probe_of (snd s) (c_nodes c)) sts in
+      probes_eqb ps (c_probes c) && intra_agree ps (c_intra c)
+      && bools_eqb (mresults_of (c_backend c) sts (c_calls c)) (c_results c)
+      && Bool.eqb (marker_of_plan_left (c_plan c) (snd (last sts (mstart (c_plan c), c_init c)))) (c_markers_left c)
+  end.
 
 Definition mbounds_ok (c : case) (prior probe : list (Z * Z)) : bool :=
   forallb (fun t => let '(n, (p, q)) := t in
-                    Z.leb (snd q) (fst q) && Z.leb (fst q) (fst p + planned_all (c_plans c) n))
+                    Z.leb (snd q) (fst q) && Z.leb (fst q) (fst p + planned_on (c_plan c) n))
           (combine (c_nodes c) (combine prior probe)).
 
 Definition ok (c : case) : bool :=
